@@ -274,8 +274,8 @@ reg("C14",
     assumptions=["url.ParseRequestURI: reference predicate url_ok; os.ReadFile: finite map; bufio.Scanner token limit (64 KiB) not modelled",
                  "the generated easyjson object decoder is an oracle: each JSON line's meaning is supplied by encoding/json (independent reader)",
                  "strings.TrimSpace restricted to ASCII white space"],
-    level_text="Gallina model of the http targeter's line state machine (bufio.ScanLines, the peeking scanner with its empty-string sentinel, comment/blank/header/@body handling, default merge) and of the JSON targeter's line loop and merge; theorems so far: json_defaults_merge (see DESIGN for the http decode-render theorem status); the model and the intent/independence checker defined in Coq are run against the real targeters on every run, earlier targets and the defaults being re-inspected after later calls.",
-    technique="Coq model of the parser state machine + differential correspondence with aliasing re-inspection",
+    level_text="http_decodes_described / http_decodes_described_bytes: for EVERY well-formed file (lines classified by what TrimSpace leaves of them: blank, comment, request, header, @body; comments and blank lines in every legal position; any indentation), every default body/header set and every file map, the model of the http targeter (bufio.ScanLines, the peeking scanner with its empty-string sentinel, the request/header/body state machine, default merge) returns exactly the described targets in order and then ErrNoTargets - proved in Coq by induction over the file; json_defaults_merge for the JSON format; comment_after_request_refuted (the pinned peeking code). Independence of earlier targets and defaults is structural in the model (values) and is decided on the real targeters by re-inspection in the tie.",
+    technique="Coq proof by induction over well-formed files on a model of the parser state machine; differential correspondence with aliasing re-inspection",
     timeout={"quick": 600, "thorough": 3000})
 
 _ATTACK_RULE = ("scripted attacks of the real Attacker under testing/synctest (virtual time; after every environment action the "
